@@ -173,11 +173,11 @@ def sendBodySites : List Bytes := [b!"fatal,err:=sendBody(*w,cr.Reader,cr.Metada
 def runSizeLimiterShape : List Bytes := [b!"t:=time.Now()", b!"fileCount:=s.readFiles(s.path)", b!"s.logger.Infof(\"Read sizes of %v files in %v: %v\",fileCount,time.Now().Sub(t),s.sizeBytes)", b!"t=time.Now()", b!"withAccessTime,err:=s.readStorableAccessTimes()", b!"if (err!=nil) {s.logger.Infof(\"Errored when reading access times: %v\",err)} else if (len(withAccessTime)>0) {s.logger.Infof(\"Read access times of %v files in %v\",len(withAccessTime),time.Now().Sub(t));t=time.Now();range n,i:withAccessTime{s.withAccessTime[n]=i;delete(s.withoutAccessTime,n)};s.logger.Infof(\"Set access times of %v files in %v\",len(withAccessTime),time.Now().Sub(t))}", b!"sleepTime:=(time.Second*5)", b!"sleepTime=verifSleep(sleepTime)", b!"lastRun:=time.Now().Add(-sleepTime)", b!"printChanLen:=false", b!"for {if s.isReplaced {break};verifPointS(\"limiter.loop\",s.id);io:=<-s.itemsChan;switch io.op {case opAdd:if (io.accessedItem!=nil) {s.withAccessTime[io.name]=*io.accessedItem;s.sizeBytes+=int64((io.accessedItem.sizeKilobytes*1024))}|case opAccessTime:if (io.accessedItem!=nil) {s.withAccessTime[io.name]=*io.accessedItem};if (io.storableAccessedItem!=nil) {s.storableAccessedItems[io.name]=*io.storableAccessedItem}|case opFlushStorable:s.flushStorableAccessTimes()};if printChanLen {go mets.NewMetrics(nil,nil,nil).WithSampleRate(1).Mark(\"items channel length\",len(s.itemsChan));printChanLen=false};if (time.Now().Sub(lastRun)<sleepTime) {continue};printChanLen=true;s.logger.Info(s.stats());purgeable:={};if (s.sizeBytes>s.maxSizeBytes) {purgeable=s.purgeableItemNames((s.sizeBytes-s.maxSizeBytes))};if ((len(purgeable.withAccessTimes)==0)&&(len(purgeable.withoutAccessTimes)==0)) {lastRun=time.Now();continue};removedWithoutAccessTimes:={};removedWithAccessTimes:={};rmFiles:=func{range _,name:*ins{fsPath:=filepath.Join(s.path,string(name));err:=os.Remove(fsPath);if (err!=nil) {if os.IsNotExist(err) {s.logger.Infof(\"File had been removed already %v: %v\",fsPath,err)} else {s.logger.Infof(\"Failed to remove file %v: %v\",fsPath,err);continue}};*removed=append(*removed,name)}};rmFiles(&purgeable.withoutAccessTimes,&removedWithoutAccessTimes);rmFiles(&purgeable.withAccessTimes,&removedWithAccessTimes);range _,n:removedWithAccessTimes{sizeKb:=s.withAccessTime[n].sizeKilobytes;delete(s.withAccessTime,n);s.sizeBytes-=int64((sizeKb*1024))};range _,n:removedWithoutAccessTimes{sizeKb:=s.withoutAccessTime[n].sizeKilobytes;delete(s.withoutAccessTime,n);s.sizeBytes-=int64((sizeKb*1024))};s.logger.Infof(\"Removed %v / %v items to release at least %v MB\",(len(removedWithoutAccessTimes)+len(removedWithAccessTimes)),(len(purgeable.withoutAccessTimes)+len(purgeable.withAccessTimes)),((purgeable.size/1024)/1024));lastRun=time.Now()}"]
 
 /-- C08 C18: every (re-)entry of cachingFunc with its arguments, in source order: the uncached redirect site,
-    the Found site, the reader site, the two revalidation re-entries (the second one — after a failed
-    revalidation covered by stale-if-error — is the ONLY one that may skip revalidation, and it re-enters
+    the Found site, the reader site, the two revalidation re-entries (after a 304 - since the fix: commit for the two-values loop - and after a
+    failed revalidation covered by stale-if-error: the ONLY ones that skip revalidation, and both re-enter
     with the same request), the writer site, the client's own entry. A stale allowance granted for one
     entry is never handed on to another key (the redirect models re-enter with `skipRevalidate = false`). -/
-def cachingFuncCalls : List Bytes := [b!"cachingFunc(w,rr,nil,alwaysInclude,&rf,false)", b!"cachingFunc(w,rr,rr.URL,nil,&rf,false)", b!"cachingFunc(w,rr,rr.URL,alwaysInclude,&rf,false)", b!"cachingFunc(w,r,nil,alwaysInclude,&rf,false)", b!"cachingFunc(w,r,nil,alwaysInclude,&rf,true)", b!"cachingFunc(w,rr,rr.URL,alwaysInclude,&rf,false)", b!"cachingFunc(&ow,or,nil,nil,nil,false)"]
+def cachingFuncCalls : List Bytes := [b!"cachingFunc(w,rr,nil,alwaysInclude,&rf,false)", b!"cachingFunc(w,rr,rr.URL,nil,&rf,false)", b!"cachingFunc(w,rr,rr.URL,alwaysInclude,&rf,false)", b!"cachingFunc(w,r,nil,alwaysInclude,&rf,true)", b!"cachingFunc(w,r,nil,alwaysInclude,&rf,true)", b!"cachingFunc(w,rr,rr.URL,alwaysInclude,&rf,false)", b!"cachingFunc(&ow,or,nil,nil,nil,false)"]
 
 /-- C19: the mapping document handed to the parsers is the whole response body (status 200) or the whole file:
     nothing is cut, limited or decoded in between ("accepted or rejected whole" starts here) -/
